@@ -1686,6 +1686,8 @@ func rpcOracles(trace string) []string {
 	dirty := strings.Contains(trace, "pH") || sendFaults ||
 		strings.Contains(trace, "pU") || strings.Contains(trace, "pJ") || strings.Contains(trace, "pD")
 	holding := false // between fW / fH / lS / lQ and fG
+	dirtySoFar := false
+	corruptSeen := false // a pHcorrupt op has been executed
 	peerFinished := map[string]bool{} // answer ids the peer has sent a Finish for since it last used them
 	recvTotal, relTotal := map[int]int{}, map[int]int{} // descriptors received / references given back per import id, over the whole history
 	lastImports := ""
@@ -1707,6 +1709,15 @@ func rpcOracles(trace string) []string {
 			var id int
 			fmt.Sscanf(op, "pDr%d", &id)
 			delete(embargoed, id)
+		}
+		if strings.HasPrefix(op, "pHcorrupt") {
+			corruptSeen = true
+		}
+		// (the counts are exact up to the first hostile / fault / unimplemented op of the history)
+		for _, k := range []string{"pH", "pU", "pJ", "pD", "fN", "fS", "fV"} {
+			if strings.HasPrefix(op, k) {
+				dirtySoFar = true
+			}
 		}
 		if strings.HasPrefix(op, "fW") || strings.HasPrefix(op, "fH") || strings.HasPrefix(op, "lS") || strings.HasPrefix(op, "lQ") {
 			holding = true
@@ -1846,11 +1857,11 @@ func rpcOracles(trace string) []string {
 				if !aborted && !closedByScript {
 					for _, kv := range strings.Split(parts[1], ",") {
 						var id, n int
-						if _, err := fmt.Sscanf(kv, "i%d=%d", &id, &n); err == nil && !uncertain[id] && !dirty && !stalls && n != impRefs[id] {
+						if _, err := fmt.Sscanf(kv, "i%d=%d", &id, &n); err == nil && !uncertain[id] && !dirtySoFar && !stalls && n != impRefs[id] {
 							note(fmt.Sprintf("!import-%d-wirerefs-%d-want-%d", id, n, impRefs[id]))
 						}
 					}
-					if !dirty && !holding {
+					if !dirtySoFar && !holding {
 						got := map[int]int{}
 						for _, kv := range strings.Split(parts[0], ",") {
 							var id, n int
@@ -1915,7 +1926,9 @@ func rpcOracles(trace string) []string {
 				}
 				var a int
 				fmt.Sscanf(ev, ">Ret(%d,", &a)
-				if outstandingAns[a] == 0 {
+				if outstandingAns[a] == 0 && !corruptSeen {
+					// (a message with flipped bits may have become a call with any id and any tag: after one, answers and
+					// deliveries can no longer be attributed)
 					note(fmt.Sprintf("!return-without-call-%d", a))
 				} else {
 					outstandingAns[a]--
@@ -1954,7 +1967,7 @@ func rpcOracles(trace string) []string {
 				g := strings.Split(ev[1:], ".")
 				if len(g) == 3 {
 					if p, ok := sentOrder[g[2]]; ok {
-						if p < lastDeliv[g[0]] {
+						if p < lastDeliv[g[0]] && !corruptSeen {
 							note("!delivery-out-of-order-" + g[0] + "-" + g[2])
 						}
 						lastDeliv[g[0]] = p
